@@ -11,7 +11,8 @@ import Mathlib.Tactic.Ring
 import Mathlib.Data.Rat.Cast.Order
 set_option linter.unusedSimpArgs false
 namespace Demeter
-open Py
+namespace Tie end Tie
+open Tie Py
 
 /-- `mul_div` on the model's domain (naturals, non-zero denominator) -/
 theorem Tie_liqmath_mul_div (a b d : Nat) (hd : d ≠ 0) :
@@ -26,13 +27,13 @@ theorem Tie_liqmath_mul_div_zero (a b : Int) : Py.mul_div a b 0 = .error .ZeroDi
   simp [Py.mul_div, floordiv_zero, bind, Except.bind]
 
 /-- `mul_div` with a possibly negative first factor (what `get_liquidity` feeds it when an amount is negative) -/
-theorem mul_div_int (w : Int) (b d : Nat) (hd : d ≠ 0) :
+theorem Tie.mul_div_int (w : Int) (b d : Nat) (hd : d ≠ 0) :
     Py.mul_div w b d = .ok ((w * (b : Int)) / (d : Int)) := by
   unfold Py.mul_div
   have hb : (d : Int) ≠ 0 := by omega
   simp [floordiv_ok _ _ hb, fdiv_pos _ (Int.natCast_nonneg d), bind, Except.bind, pure, Except.pure]
 
-theorem sortPair_cast (sa sb : Nat) :
+theorem Tie.sortPair_cast (sa sb : Nat) :
     (if ((sa : Int) > (sb : Int)) then ((sb : Int), (sa : Int)) else ((sa : Int), (sb : Int)))
       = (((sortPair sa sb).1 : Int), ((sortPair sa sb).2 : Int)) := by
   unfold sortPair
@@ -42,16 +43,16 @@ theorem sortPair_cast (sa sb : Nat) :
   · have : ¬ (sa : Int) > (sb : Int) := by omega
     simp [h, this]
 
-theorem sortPair_le (sa sb : Nat) : (sortPair sa sb).1 ≤ (sortPair sa sb).2 := by
+theorem Tie.sortPair_le (sa sb : Nat) : (sortPair sa sb).1 ≤ (sortPair sa sb).2 := by
   unfold sortPair; split <;> simp <;> omega
 
-theorem sortPair_ne (sa sb : Nat) (h : sa ≠ sb) : (sortPair sa sb).1 ≠ (sortPair sa sb).2 := by
+theorem Tie.sortPair_ne (sa sb : Nat) (h : sa ≠ sb) : (sortPair sa sb).1 ≠ (sortPair sa sb).2 := by
   unfold sortPair; split <;> simp <;> omega
 
-theorem Q96_cast : ((2 : Int) ^ (96 : Nat)) = ((Q96 : Nat) : Int) := by decide
+theorem Tie.Q96_cast : ((2 : Int) ^ (96 : Nat)) = ((Q96 : Nat) : Int) := by decide
 
 /-- `get_liquidity_for_amount0` with an integer amount -/
-theorem get_liquidity_for_amount0_int (sa sb : Nat) (w : Int) (h : sa ≠ sb) :
+theorem Tie.get_liquidity_for_amount0_int (sa sb : Nat) (w : Int) (h : sa ≠ sb) :
     Py.get_liquidity_for_amount0 sa sb w
       = .ok ((w * ((mulDiv (sortPair sa sb).1 (sortPair sa sb).2 Q96 : Nat) : Int))
               / (((sortPair sa sb).2 - (sortPair sa sb).1 : Nat) : Int)) := by
@@ -79,7 +80,7 @@ theorem Tie_liqmath_get_liquidity_for_amount0_zero (sa : Nat) (amount : Int) :
   simp [Q96_cast, Tie_liqmath_mul_div sa sa Q96 hq, Tie_liqmath_mul_div_zero, bind, Except.bind, pure, Except.pure]
 
 /-- `get_liquidity_for_amount1` with an integer amount -/
-theorem get_liquidity_for_amount1_int (sa sb : Nat) (w : Int) (h : sa ≠ sb) :
+theorem Tie.get_liquidity_for_amount1_int (sa sb : Nat) (w : Int) (h : sa ≠ sb) :
     Py.get_liquidity_for_amount1 sa sb w
       = .ok ((w * ((Q96 : Nat) : Int)) / (((sortPair sa sb).2 - (sortPair sa sb).1 : Nat) : Int)) := by
   unfold Py.get_liquidity_for_amount1
@@ -109,10 +110,10 @@ theorem Tie_liqmath_to_wei (cx : NumCtx) (amount : Rat) (decimals : Nat) :
   unfold Py.to_wei toWei pow10
   simp [ipow_nat, bind, Except.bind, pure, Except.pure]
 
-theorem pow10_cast (d : Nat) : (((10 : Int) ^ d : Int) : Rat) = ((pow10 d : Nat) : Rat) := by
+theorem Tie.pow10_cast (d : Nat) : (((10 : Int) ^ d : Int) : Rat) = ((pow10 d : Nat) : Rat) := by
   unfold pow10; push_cast; rfl
 
-theorem pow10_ne (d : Nat) : ((pow10 d : Nat) : Rat) ≠ 0 := by
+theorem Tie.pow10_ne (d : Nat) : ((pow10 d : Nat) : Rat) ≠ 0 := by
   unfold pow10; exact_mod_cast (Nat.pow_pos (by decide : 0 < 10)).ne'
 
 theorem Tie_liqmath_get_amount0 (cx : NumCtx) (sa sb l d : Nat) (ha : 0 < sa) (hb : 0 < sb) :
@@ -150,7 +151,7 @@ theorem Tie_liqmath_get_amount1 (cx : NumCtx) (sa sb l d : Nat) :
 
 /-! ### the two top-level functions: they call `get_sqrt_ratio_at_tick` (tie: Proofs/Tie/TickMath.lean) -/
 
-theorem tickFold_le (a : Nat) (tbl : List (Nat × Nat)) (hc : ∀ p ∈ tbl, p.2 ≤ 2 ^ Gen.tickShift) (r : Nat) :
+theorem Tie.tickFold_le (a : Nat) (tbl : List (Nat × Nat)) (hc : ∀ p ∈ tbl, p.2 ≤ 2 ^ Gen.tickShift) (r : Nat) :
     tickFold a tbl r ≤ r := by
   induction tbl generalizing r with
   | nil => exact Nat.le_refl _
@@ -166,7 +167,7 @@ theorem tickFold_le (a : Nat) (tbl : List (Nat × Nat)) (hc : ∀ p ∈ tbl, p.2
         _ = 2 ^ Gen.tickShift * r := Nat.mul_comm _ _
     · exact Nat.le_refl _
 
-theorem tickRatio_pos (t : Int) : 0 < tickRatio t := by
+theorem Tie.tickRatio_pos (t : Int) : 0 < tickRatio t := by
   have hpos := tickFold_pos t.natAbs
   have hle := tickFold_le t.natAbs Gen.tickTable table_le
     (if t.natAbs &&& 1 != 0 then Gen.tickStartOdd else Gen.tickStartEven)
@@ -178,7 +179,7 @@ theorem tickRatio_pos (t : Int) : 0 < tickRatio t := by
   · exact Nat.div_pos (Nat.le_trans hle hstart) hpos
   · exact hpos
 
-theorem tickRound_pos (q : Nat) (hq : 0 < q) :
+theorem Tie.tickRound_pos (q : Nat) (hq : 0 < q) :
     0 < (q >>> Gen.tickFinalShift) + (if q % Gen.tickFinalMod = 0 then 0 else 1) := by
   have hm : Gen.tickFinalMod = 2 ^ Gen.tickFinalShift := by decide
   rw [Nat.shiftRight_eq_div_pow, hm]
@@ -189,7 +190,7 @@ theorem tickRound_pos (q : Nat) (hq : 0 < q) :
   · simp only [h0, if_false]; exact Nat.succ_pos _
 
 /-- the model's sqrt price is never zero (so the divisions of `get_amount0` are defined) -/
-theorem sqrtAt_pos_all (t : Int) : 0 < sqrtAt t := tickRound_pos _ (tickRatio_pos t)
+theorem Tie.sqrtAt_pos_all (t : Int) : 0 < sqrtAt t := tickRound_pos _ (tickRatio_pos t)
 
 theorem Tie_liqmath_get_amounts (cx : NumCtx) (s : Nat) (ta tb : Int) (l d0 d1 : Nat)
     (ha : tickOk ta = true) (hb : tickOk tb = true) :
@@ -218,7 +219,7 @@ theorem Tie_liqmath_get_amounts (cx : NumCtx) (s : Nat) (ta tb : Int) (l d0 d1 :
       simp only [h2, h2', if_false, Tie_liqmath_get_amount1, pure, Except.pure]
       congr 2
 
-theorem sortPair_of_le (x y : Nat) (h : x ≤ y) : sortPair x y = (x, y) := by
+theorem Tie.sortPair_of_le (x y : Nat) (h : x ≤ y) : sortPair x y = (x, y) := by
   unfold sortPair
   have : ¬ x > y := by omega
   simp [this]
